@@ -3,7 +3,9 @@ from __future__ import annotations
 
 import collections
 import copy
+import gc
 import itertools
+import types
 
 from vmc import core, e1, ref, space
 
@@ -21,6 +23,8 @@ CHUNK = 8
 L = space.leaf
 NC_TYPES = ("list", "dict", "set", "deque", "OrderedDict")
 MUTABLE = (list, dict, set, collections.deque, bytearray)
+# deepcopy cannot copy a mappingproxy on its own
+copy._deepcopy_dispatch[types.MappingProxyType] = lambda x, memo: types.MappingProxyType(copy.deepcopy(dict(x), memo))
 
 
 def bounds(tier):
@@ -30,7 +34,9 @@ def bounds(tier):
 
 def wrap(e):
     out = [("list", e), ("dict", L("str"), e), ("deque", e), ("ordered", L("str"), e), ("tuple", e, L("int")), ("opt", e),
-           ("dc", "mixin", ((e, "req"),)), ("seq", e), ("mapping", L("str"), e)]
+           ("dc", "mixin", ((e, "req"),)), ("seq", e), ("mapping", L("str"), e), ("mproxy", L("str"), e)]
+    if e == L("any"):
+        out.append(("mproxy", L("any"), L("any")))      # neither keys nor values need conversion
     if e[0] != "leaf":
         out.append(("union", L("int"), e))
     if e[0] == "leaf" and e[1] in ("int", "date"):
@@ -72,7 +78,7 @@ def expr_is_value(d, N, elem=True):
         return d[1] in ("int", "str", "any", "none", "float", "bool") or d[1] in NATIVE_LEAVES
     if k in ("list", "deque", "set", "seq", "barelist"):
         return origin_name(d) in N and expr_is_value(d[1], N)
-    if k in ("dict", "ordered", "mapping", "baredict"):
+    if k in ("dict", "ordered", "mapping", "baredict", "mproxy"):
         return origin_name(d) in N and expr_is_value(d[1], N) and expr_is_value(d[2], N)
     if k in ("union", "opt"):
         ms = space.flat_members(d)                  # typing flattens nested unions / Optional members
@@ -94,6 +100,11 @@ def containers(x, acc, any_ok=True):
     """ids of the mutable containers reachable from x."""
     if isinstance(x, MUTABLE):
         acc[id(x)] = x
+    if isinstance(x, types.MappingProxyType):
+        inner = gc.get_referents(x)[0]         # a mappingproxy is a live view: what matters is the mapping it wraps
+        if isinstance(inner, dict):
+            acc[id(inner)] = inner
+        x = inner
     if type(x).__name__ == "Bag" and hasattr(x, "items") and isinstance(x.items, list):
         containers(x.items, acc)      # the list owned by an annotated SerializableType value
     if isinstance(x, dict):
@@ -139,7 +150,7 @@ def predict(d, v, N, shared, anyzone, ctx):
     if k in ("list", "deque", "set", "seq", "barelist"):
         for x in v:
             predict(d[1], x, N, shared, anyzone, ctx)
-    elif k in ("dict", "ordered", "mapping", "baredict"):
+    elif k in ("dict", "ordered", "mapping", "baredict", "mproxy"):
         for x in v.values():
             predict(d[2], x, N, shared, anyzone, ctx)
     elif k == "tuple":
@@ -157,7 +168,7 @@ def _mark_any(d, v, anyzone):
     elif k in ("list", "deque", "set", "seq", "barelist"):
         for x in v:
             _mark_any(d[1], x, anyzone)
-    elif k in ("dict", "ordered", "mapping", "baredict"):
+    elif k in ("dict", "ordered", "mapping", "baredict", "mproxy"):
         for x in v.values():
             _mark_any(d[2], x, anyzone)
     elif k in ("opt",):
@@ -180,7 +191,7 @@ def _any_zone_wire(d, w, zone, ctx):
     if k in ("list", "deque", "set", "seq", "barelist") and isinstance(w, list):
         for x in w:
             _any_zone_wire(d[1], x, zone, ctx)
-    elif k in ("dict", "ordered", "mapping", "baredict") and isinstance(w, dict):
+    elif k in ("dict", "ordered", "mapping", "baredict", "mproxy") and isinstance(w, dict):
         for x in w.values():
             _any_zone_wire(d[2], x, zone, ctx)
     elif k == "tuple" and isinstance(w, list):
